@@ -41,7 +41,7 @@ theorem C09_transit (st : St) (c tag : Nat) (ch : Chan) (hc : st.chans[c]? = som
     ((step st (.send c tag [])).1.chans[c]?).map (·.queue) = some (ch.queue ++ [⟨tag, []⟩]) := by
   have : ¬ ch.senders = 0 := by omega
   have hg : c ∈ rxAlive st := by simpa using halive
-  simp [step, hc, this, hg, Ideal.modify, List.getElem?_modify]
+  simp [step, hc, this, hg, Ideal.modify, List.getElem?_modify, markInMsg]
 
 /-- non-vacuity: the receiver of channel 1 travels inside a message on channel 0; a send to it succeeds and is delivered
 after it has been unpacked -/
